@@ -507,6 +507,7 @@ func (c14Driver) Run(spec *simrt.Spec, agg *Agg, keep bool) *Outcome {
 		f()
 	}
 	nBuilt, nErr, nCorruptErr, nCorruptOK, nProbes := 0, 0, 0, 0, 0
+	nRegroup := 0
 	res := w.Run(func() {
 		type ref struct {
 			fm   *fieldmask.FieldMask
@@ -525,6 +526,24 @@ func (c14Driver) Run(spec *simrt.Spec, agg *Agg, keep bool) *Outcome {
 					}
 				}
 				fm, err := fieldmask.Options{BlackListMode: m.Black}.NewFieldMask(desc, m.Paths...)
+				// (vii) grouping: the members of a bracket group written in another order, or each member
+				// written as a path of its own in the same place, describe the same list of paths: the
+				// list is accepted or refused alike, and an accepted one answers alike
+				if !star && len(m.Paths) > 0 {
+					for _, mode := range []string{"reverse-members", "split-groups"} {
+						alt, changed := c14Regroup(m.Paths, mode)
+						if !changed {
+							continue
+						}
+						nRegroup++
+						fa, ea := fieldmask.Options{BlackListMode: m.Black}.NewFieldMask(desc, alt...)
+						if (ea == nil) != (err == nil) {
+							fail("grouping-changes-outcome", "grouping-changes-outcome:"+mode, "paths %q: NewFieldMask says %v; the same paths written as %q: %v", m.Paths, err, alt, ea)
+						} else if ea == nil && c14Ans(fa) != c14Ans(fm) {
+							fail("grouping-changes-answers", "grouping-changes-answers:"+mode, "paths %q and the same paths written as %q give masks that answer differently: %s", m.Paths, alt, firstDiff(c14Ans(fm), c14Ans(fa)))
+						}
+					}
+				}
 				if err != nil {
 					nErr++
 					if !star && !c14HasNegative(m.Paths) && !c14PrefixRelated(m.Paths) {
@@ -853,6 +872,7 @@ func (c14Driver) Run(spec *simrt.Spec, agg *Agg, keep bool) *Outcome {
 	o.Class, o.Sig, o.Msg = class, sig, msg
 	agg.Count("masks.built", nBuilt)
 	agg.Count("probe.path-membership-queries", nProbes)
+	agg.Count("probe.regrouped-path-lists", nRegroup)
 	agg.Count("masks.rejected-paths", nErr)
 	agg.Count("fault.corrupt.rejected", nCorruptErr)
 	agg.Count("fault.corrupt.accepted", nCorruptOK)
@@ -920,4 +940,76 @@ func c14PrefixRelated(paths []string) bool {
 		}
 	}
 	return false
+}
+
+// c14Regroup rewrites the bracket groups of star-free paths: "reverse-members" writes the members of
+// every group in reverse order, "split-groups" replaces a path by one path per combination of
+// members, in the same place of the list.  Paths it cannot take apart are left alone.
+func c14Regroup(paths []string, mode string) ([]string, bool) {
+	var out []string
+	changed := false
+	for _, p := range paths {
+		if !strings.HasPrefix(p, "$") || strings.Contains(p, "*") {
+			out = append(out, p)
+			continue
+		}
+		switch mode {
+		case "split-groups":
+			ex, ok := c14Expand(p)
+			if !ok || len(ex) < 2 {
+				out = append(out, p)
+				continue
+			}
+			for _, segs := range ex {
+				out = append(out, "$"+strings.Join(segs, ""))
+			}
+			changed = true
+		default:
+			var sb strings.Builder
+			sb.WriteString("$")
+			rest := p[1:]
+			ok := true
+			for len(rest) > 0 && ok {
+				switch rest[0] {
+				case '[', '{':
+					closer := byte(']')
+					if rest[0] == '{' {
+						closer = '}'
+					}
+					j := strings.IndexByte(rest, closer)
+					if j < 0 {
+						ok = false
+						break
+					}
+					ms := strings.Split(rest[1:j], ",")
+					for _, m := range ms {
+						if m == "" || strings.ContainsAny(m, "[]{}") {
+							ok = false
+						}
+					}
+					if len(ms) > 1 {
+						for a, b := 0, len(ms)-1; a < b; a, b = a+1, b-1 {
+							ms[a], ms[b] = ms[b], ms[a]
+						}
+						changed = true
+					}
+					sb.WriteString(string(rest[0]) + strings.Join(ms, ",") + string(closer))
+					rest = rest[j+1:]
+				default:
+					j := 1
+					for j < len(rest) && rest[j] != '[' && rest[j] != '{' {
+						j++
+					}
+					sb.WriteString(rest[:j])
+					rest = rest[j:]
+				}
+			}
+			if !ok {
+				out = append(out, p)
+				continue
+			}
+			out = append(out, sb.String())
+		}
+	}
+	return out, changed
 }
